@@ -25,11 +25,11 @@ CHECKS.update({
             "text": "Both Shapley entry points proved equal to the average marginal contribution over all orderings for all real games per n=2..6 (7 thorough); efficiency, null player, relabelling, linearity on the code's outputs.",
             "note": _NOTE},
     "C07": {"level": "proof", "technique": _T + "; relational before/after-reveal obligations; ghost lemmas; lattice edges bounded",
-            "text": "Intervals shrink under a true reveal: spec-level lemma for all K plus code-level relational proof for SA computers and sam_apx_1; gap-function contracts and monotonicity lemmas.",
-            "note": _NOTE + "; SAM counts 10/100/1000 only bounded"},
+            "text": "Intervals shrink under a true reveal: spec-level lemma for all K, code-level relational proof for the SA computers (n=3..5) and, through a relational loop invariant, for the SAM approximation with EVERY repetition count (n=3,4); gap-function contracts, monotonicity lemmas, zero at full knowledge.",
+            "note": _NOTE + "; SAM approximation: every repetition count through a relational invariant over the cut loop at n=3,4, larger n bounded"},
     "C08": {"level": "proof", "technique": _T + "; 2-safety by self-composition (two stale pre-states), idempotence, reveal/undo",
-            "text": "Tables proved to be a function of knowledge alone (independent stale rows), idempotent and restored by reveal/un-reveal for SA computers per n and sam_apx_1/10 unrolled; environment step/unstep restore.",
-            "note": _NOTE + "; SAM counts 100/1000 only bounded"},
+            "text": "Tables proved to be a function of knowledge alone (independent stale rows), idempotent and restored by reveal/un-reveal for the SA computers per n; for the SAM approximation unrolled (sam_apx_1/10) and for EVERY repetition count by a relational cut of its loop; environment step/unstep histories.",
+            "note": _NOTE + "; SAM approximation: every repetition count through a relational (two-run) cut of the loop at n=3,4, larger n bounded"},
     "C09": {"level": "proof", "technique": _T + "; object invariant + per-method contracts from an arbitrary invariant state",
             "text": "Every ICG_Gym method proved against its contract from an arbitrary state satisfying the environment invariant (all chosen sets at once), real callees inlined, n=3 (4 thorough); real gymnasium sequences bounded.",
             "note": _NOTE + "; gymnasium.Env stubbed in the deductive part"},
